@@ -21,6 +21,8 @@ NAMESPACE = 'SshAudit.C01'
 THEOREMS = ['text_names_exact', 'lines_in_category', 'printed_plain', 'role_irrelevant', 'shown_name_prefix', 'compression_text',
             'maskFrom_mem', 'mask_mem', 'maskFrom_sublist', 'mask_sublist', 'kexinit_lists_from_bytes']
 EXTENSIONS = ['props.ext.C01_ssh1']
+GEN_LOGIC = ['kex_parse']            # SSH2_Kex.parse assigns the ten name-lists in wire order (Props/GenLogic6); the round trip with the writer is C10's
+GEN_LOGIC_COROLLARIES = False
 TECHNIQUE = 'Lean 4 theorems (list homomorphism / filter identities by induction over arbitrary lists; bit-mask membership and sublist by induction) + byte-to-report correspondence through SSH2_Kex.parse and output()'
 LEVEL_TEXT = ('For every name-list, database state, role and size map the model report lists per category exactly the advertised non-blank names (order, multiplicity), never moves a name '
               'between categories and only ever appends a size suffix; SSH-1 masks list exactly the set bits in table order. The model is tied to the code by feeding generated KEXINIT bytes '
